@@ -27,6 +27,11 @@ type RouteOpts struct {
 	HostileQuery bool
 	// SameMethodNames lets two services of the file share an RPC name.
 	SameMethodNames bool
+	// TrailingSlash sometimes ends an RPC path with "/" (or makes it exactly "/").
+	TrailingSlash bool
+	// QueryNameClash sometimes gives a query parameter the wire name of a path variable of the
+	// same RPC that is bound to a DIFFERENT field (valid: no field is bound twice).
+	QueryNameClash bool
 }
 
 type routeField struct {
@@ -144,6 +149,13 @@ func GenRouteFile(r *R, idx int, o RouteOpts) *ir.Request {
 				if !o.SafeOnly && r.P(1, 8) {
 					path = strings.TrimPrefix(path, "/") // no leading slash
 				}
+				if o.TrailingSlash && r.P(1, 4) {
+					if nvars == 0 && r.P(1, 3) {
+						path = "/"
+					} else if !strings.HasSuffix(path, "/") {
+						path += "/"
+					}
+				}
 			}
 			bodiless := verb == "GET" || verb == "DELETE"
 			nq := r.Intn(3)
@@ -178,6 +190,7 @@ func GenRouteFile(r *R, idx int, o RouteOpts) *ir.Request {
 				j := r.Intn(i + 1)
 				perm[i], perm[j] = perm[j], perm[i]
 			}
+			clashed := false
 			for n, pi := range perm {
 				rf := fields[pi]
 				fl := &ir.Field{Name: rf.name, Number: int32(n + 1), Kind: rf.kind}
@@ -191,6 +204,15 @@ func GenRouteFile(r *R, idx int, o RouteOpts) *ir.Request {
 						q.Name = "" // defaults to the field name
 					case 1:
 						q.Name = strings.ReplaceAll(rf.name, "_", "-")
+					}
+					if o.QueryNameClash && !clashed && r.P(1, 3) {
+						clashed = true
+						for _, pf := range fields {
+							if pf.role == "path" {
+								q.Name = pf.name
+								break
+							}
+						}
 					}
 					q.Required = r.P(1, 4)
 					fl.Ann.Query = q
